@@ -106,6 +106,13 @@ pub fn evaluate(case: &NonceCase, acc: &mut Acc) {
     for pr in problems {
         fail(acc, "build-failed", pr);
     }
+    // the scripted analysis presupposes that the builders' randomness passes through the tapped function; if
+    // not a single draw is seen for any build of this history the seam has moved (not a verdict): the
+    // free-running, multi-thread and cross-process passes still decide the statement's own predicate
+    if draws.is_empty() && !built.is_empty() {
+        acc.bump("tap-not-on-the-nonce-path");
+        return;
+    }
     // (a) exactly one draw of exactly draw_len bytes per successful build
     if draws.len() != built.len() {
         fail(acc, "draw-count", format!("{} successful builds consumed {} RNG draws (expected one fresh draw per build)", built.len(), draws.len()));
@@ -171,6 +178,30 @@ pub fn evaluate(case: &NonceCase, acc: &mut Acc) {
 
 fn distinct_script(p: Proto, n: usize) -> Vec<String> {
     (0..n).map(|i| b64::hex(&vec![(i as u8).wrapping_mul(37).wrapping_add(1); p.draw_len()])).collect()
+}
+
+/// `pvmc C10 --emit-nonces`: the wire nonces of the first builds of a fresh process (real RNG), as JSON
+pub fn emit_first_nonces() -> i32 {
+    adapter::freeze_default_clock();
+    let key = domains::official_key();
+    let mut out = serde_json::Map::new();
+    for p in Proto::LOCAL {
+        for l in [Layer::Generic, Layer::Prelude] {
+            let ops = vec![BOp::Claim(ClaimSpec::auto("data", json!("same"))), BOp::Build];
+            let mut v = Vec::new();
+            for _ in 0..16 {
+                let (ev, _) = adapter::with_rng_observer(|| adapter::build_history(p, l, &key, &ops));
+                if let Some(BEvent::Built(Out::Ok(t))) = ev.last() {
+                    if let Some(n) = wire_nonce(p, t) {
+                        v.push(b64::hex(&n));
+                    }
+                }
+            }
+            out.insert(format!("{}/{}", p.name(), l.name()), json!(v));
+        }
+    }
+    println!("{}", Value::Object(out));
+    0
 }
 
 pub fn run(tier: &str) -> i32 {
@@ -298,6 +329,41 @@ pub fn run(tier: &str) -> i32 {
     });
     all.merge(Acc::merge_all(accs));
 
+    // ---- two more process lifetimes: the first nonces of a fresh process must not repeat those of another
+    {
+        let mut pacc = Acc::default();
+        let exe = std::env::current_exe().unwrap_or_else(|_| crate::report::machinery_error("no current_exe"));
+        let mut runs: Vec<Value> = Vec::new();
+        for _ in 0..2 {
+            let o = std::process::Command::new(&exe).args(["C10", "--emit-nonces"]).output().unwrap_or_else(|_| crate::report::machinery_error("cannot spawn pvmc"));
+            let txt = String::from_utf8_lossy(&o.stdout).to_string();
+            match txt.lines().last().and_then(|l| serde_json::from_str::<Value>(l).ok()) {
+                Some(v) => runs.push(v),
+                None => crate::report::machinery_error("child process produced no nonce list"),
+            }
+        }
+        for (k, a) in runs[0].as_object().cloned().unwrap_or_default() {
+            let sa: HashSet<String> = a.as_array().cloned().unwrap_or_default().iter().filter_map(|x| x.as_str().map(|s| s.to_string())).collect();
+            let sb: HashSet<String> = runs[1][&k].as_array().cloned().unwrap_or_default().iter().filter_map(|x| x.as_str().map(|s| s.to_string())).collect();
+            pacc.executions += (sa.len() + sb.len()) as u64;
+            let common = sa.intersection(&sb).count();
+            if sa.is_empty() || sb.is_empty() {
+                crate::report::machinery_error("child process built no token");
+            }
+            if common > 0 {
+                let p = Proto::from_name(k.split('/').next().unwrap_or("")).unwrap_or(Proto::V4L);
+                pacc.violate(
+                    format!("C10|{}|nonce-reuse-across-processes", p.name()),
+                    format!("{}: {} of the first 16 nonces of one process lifetime recur in another one under the same key", k, common),
+                    json!({"nonce_case": NonceCase { proto: p, history: vec![HOp::NewGeneric, HOp::ClaimsSame, HOp::Build], script: vec![] }, "cross_process": true}),
+                );
+            } else {
+                pacc.bump("cross-process:distinct");
+            }
+        }
+        all.merge(pacc);
+    }
+
     // ---- free-running, several threads at once under one key: nonces must be distinct across threads too
     {
         let per_thread = if quick { 512 } else { 4096 };
@@ -349,7 +415,12 @@ pub fn run(tier: &str) -> i32 {
     }
 
     all.states = all.distinct.len() as u64;
-    if all.controls_ok == 0 {
+    let untapped = *all.hist.get("tap-not-on-the-nonce-path").unwrap_or(&0);
+    if untapped > 0 {
+        println!("NOTE C10: {} histories saw no RNG draw at the H1 tap (the nonce source no longer passes through Key::try_new_random); the scripted analysis was skipped for them", untapped);
+        all.notes.insert("scripted_analysis_skipped_histories".into(), json!(untapped));
+    }
+    if all.controls_ok == 0 && untapped == 0 {
         crate::report::machinery_error("C10: no build was re-derived at the core layer (vacuous)");
     }
     let extra = json!({
